@@ -115,6 +115,94 @@ theorem download_contacted_le (outs : List Outcome) : (download outs).contacted 
 /-- non-vacuity -/
 example : download [.connErr, .timeout, .ok [1, 2], .ok [9], .headNotOk] = ⟨[1, 2], 3, false⟩ := by decide
 example : download [.connErr, .getStatus] = ⟨[], 2, true⟩ := by decide
+
+/-! #### the dataset object as a state machine (`download` / `load` histories) -/
+
+/-- a successful `download()` leaves EXACTLY the first reachable mirror's bytes in the target file,
+whatever the file held before (missing, empty, bytes of an earlier download) -/
+theorem dstep_download_ok (file : Option (List Nat)) (pre post : List Outcome) (b : List Nat)
+    (hpre : ∀ o ∈ pre, ∀ b', o ≠ .ok b') :
+    dstep ⟨true, file⟩ (.download (pre ++ .ok b :: post)) = (⟨true, some b⟩, .done) := by
+  simp [dstep, download_first_ok pre post b hpre]
+
+/-- if every mirror fails, `download()` raises DownloadError and the object and file are untouched -/
+theorem dstep_download_fail (s : DState) (outs : List Outcome) (h : ∀ o ∈ outs, ∀ b, o ≠ .ok b) :
+    dstep s (.download outs) = (s, .downloadError) := by
+  simp [dstep, download_none_ok outs h]
+
+/-- DownloadError is raised iff no mirror is reachable -/
+theorem dstep_downloadError_iff (s : DState) (outs : List Outcome) :
+    (dstep s (.download outs)).2 = .downloadError ↔ ∀ o ∈ outs, ∀ b, o ≠ .ok b := by
+  rw [← download_error_iff]
+  unfold dstep
+  simp only []
+  split
+  · simp_all
+  · split <;> simp_all
+
+/-- `load()` on a downloaded file returns its data, removes the file and forgets the path -/
+theorem dstep_load_ok (b : List Nat) : dstep ⟨true, some b⟩ (.load true) = (⟨false, none⟩, .data b) := rfl
+
+/-- a read error (ReadFileError) keeps the file -/
+theorem dstep_load_bad (b : List Nat) : dstep ⟨true, some b⟩ (.load false) = (⟨true, some b⟩, .readFileError) := rfl
+
+/-- download followed by load returns exactly the first reachable mirror's bytes -/
+theorem download_then_load (file : Option (List Nat)) (pre post : List Outcome) (b : List Nat)
+    (hpre : ∀ o ∈ pre, ∀ b', o ≠ .ok b') :
+    drun ⟨true, file⟩ [.download (pre ++ .ok b :: post), .load true] = (⟨false, none⟩, [.done, .data b]) := by
+  simp [drun, dstep_download_ok file pre post b hpre, dstep_load_ok]
+
+/-- the bytes of the first reachable mirror of a mirror list, if any -/
+def firstOk : List Outcome → Option (List Nat)
+  | [] => none
+  | .ok b :: _ => some b
+  | _ :: rest => firstOk rest
+
+theorem download_eq_firstOk (outs : List Outcome) :
+    (firstOk outs = none → (download outs).error = true) ∧
+    (∀ b, firstOk outs = some b → (download outs).error = false ∧ (download outs).file = b) := by
+  induction outs with
+  | nil => simp [firstOk, download]
+  | cons o rest ih =>
+    cases o <;> simp_all [firstOk, download]
+
+/-- the file a history of downloads must end with: the first reachable mirror of the LAST download
+that reached one, else the initial content -/
+def lastGood (init : Option (List Nat)) : List (List Outcome) → Option (List Nat)
+  | [] => init
+  | outs :: rest => lastGood (match firstOk outs with | some b => some b | none => init) rest
+
+/-- every history of `download()` calls on one object: the target file ends with exactly the bytes of
+the first reachable mirror of the last successful call — nothing is accumulated across calls -/
+theorem downloads_history (init : Option (List Nat)) (hist : List (List Outcome)) :
+    (drun ⟨true, init⟩ (hist.map .download)).1 = ⟨true, lastGood init hist⟩ := by
+  induction hist generalizing init with
+  | nil => rfl
+  | cons outs rest ih =>
+    have h := download_eq_firstOk outs
+    cases hf : firstOk outs with
+    | none =>
+      have he := h.1 hf
+      simp only [List.map_cons, drun, lastGood, hf]
+      have : dstep ⟨true, init⟩ (.download outs) = (⟨true, init⟩, .downloadError) := by simp [dstep, he]
+      rw [this]; exact ih init
+    | some b =>
+      obtain ⟨he, hb⟩ := h.2 b hf
+      simp only [List.map_cons, drun, lastGood, hf]
+      have : dstep ⟨true, init⟩ (.download outs) = (⟨true, some b⟩, .done) := by simp [dstep, he, hb]
+      rw [this]; exact ih (some b)
+
+/-- after `load()` succeeded the object is spent: every later call fails and changes nothing -/
+theorem spent_absorbing (op : DOp) : (dstep ⟨false, none⟩ op).1 = ⟨false, none⟩ ∧
+    (dstep ⟨false, none⟩ op).2 ∈ [DOut.downloadError, .typeError, .fileNotFound] := by
+  cases op with
+  | download outs => unfold dstep; simp only []; split <;> simp
+  | load r => simp [dstep]
+
+/-- non-vacuity: a pre-filled target, a failed call, two successful ones, then load -/
+example : drun ⟨true, some [99]⟩ [.download [.connErr], .download [.timeout, .ok [1]], .download [.ok [0], .ok [1]], .load true]
+    = (⟨false, none⟩, [.downloadError, .done, .done, .data [0]]) := by decide
+example : lastGood (some [99]) [[.connErr], [.timeout, .ok [1]], [.ok [0], .ok [1]]] = some [0] := by decide
 end Download
 
 /-! ### SEA / Dummy -/
@@ -312,3 +400,12 @@ end Frouros.C20
 #print axioms Frouros.C20.seaCheck_value_iff
 #print axioms Frouros.C20.dummyCheck_none_iff
 #print axioms Frouros.C20.dummyCheck_some_iff
+#print axioms Frouros.C20.dstep_download_ok
+#print axioms Frouros.C20.dstep_download_fail
+#print axioms Frouros.C20.dstep_downloadError_iff
+#print axioms Frouros.C20.dstep_load_ok
+#print axioms Frouros.C20.dstep_load_bad
+#print axioms Frouros.C20.download_then_load
+#print axioms Frouros.C20.download_eq_firstOk
+#print axioms Frouros.C20.downloads_history
+#print axioms Frouros.C20.spent_absorbing
